@@ -15,6 +15,7 @@ import hashlib
 import json
 import os
 import pickle
+import re
 import subprocess
 import sys
 import tempfile
@@ -329,6 +330,7 @@ def asan_support(run, calls, timeout=900):
     elif "AddressSanitizer" in r.stderr or "runtime error" in r.stderr:
         info["status"] = "REPORT"
         info["report"] = r.stderr[-3000:]
+        info["report_full"] = r.stderr[:20000]
     else:
         info["status"] = "skipped: child failed without a sanitizer report (rc=%d): %s" % (r.returncode, r.stderr[-400:])
     return info
@@ -349,11 +351,14 @@ def sanitizer_selection(calls, per_kernel):
 
 
 def report_sanitizer(run, info, calls):
-    run.cov["oracle"]["sanitizer"] = {k: v for k, v in info.items() if k != "report"}
+    run.cov["oracle"]["sanitizer"] = {k: v for k, v in info.items() if k not in ("report", "report_full")}
     if info.get("status") == "REPORT":
         k = info.get("last_call_index")
         name, args = calls[k] if k is not None and k < len(calls) else ("?", [])
-        m = [l for l in info.get("report", "").split("\n") if "ERROR: AddressSanitizer" in l or "runtime error" in l or " in " in l][:6]
+        rl = info.get("report_full", info.get("report", "")).split("\n")
+        m = [l.strip() for l in rl if "ERROR: AddressSanitizer" in l or "runtime error" in l][:2]
+        m += [l.strip() for l in rl if re.search(r"/c/\w+\.c(pp)?:\d+", l)][:3]
+        m += [l.strip() for l in rl if "WRITE of size" in l or "READ of size" in l or "is located" in l][:2]
         run.violation("phonopy._phonopy.%s" % name, "sanitizer-report",
                       "AddressSanitizer/UBSan reports an error inside the kernel while replaying a call captured from the Python layer: %s" % (m[0].strip() if m else "see report"),
                       dict(kernel=name, signature=U.sig_of(name, args)[1:] if args else None,
